@@ -32,6 +32,8 @@ struct C08Plan
   int nops[C08_MAXTHREADS];
   C08Op ops[C08_MAXTHREADS][C08_MAXOPS];
   int release_creator_during[C08_MAXOBJ];  // thread 0 drops the creator reference while the threads run
+  int barrier_at[C08_MAXTHREADS];          // op index after which a thread no longer reads thread 0's handles
+  int t0_drops_during;                     // thread 0 destroys all its handles while the threads still run
 };
 extern "C" {
 const C08Plan *c08_plan();
@@ -47,5 +49,7 @@ void c08_phase(int ph);
 int c08_model_slot(int tid, int slot);          // object id or -1; -2 if the slot is dead
 int c08_obj_alive(int obj);
 int c08_payload_owner(int obj);
+void c08_barrier_arrive(int tid);
+void c08_wait_barriers(int n);
 void c08_run();
 }
